@@ -203,8 +203,28 @@ def integrator_grid(M):
     isolated(dtc, "get_DT_control_at")
 
 
+def native_density_grids():
+    """DensityGrid / DenseEdgesGrid / FunctionGrid node locations: numerical integration and root finding (CasADi
+    integrator + scipy) are outside the symbolic engine, so these are computed on the real code (replay/density_grid.py)
+    and compared with closed forms: bounded stand-in (listed densities, N in {1,2,5,8}), never counted as proved"""
+    import json, os, subprocess
+    from vc.core import ctx
+    c = ctx()
+    VERIF = os.path.dirname(os.path.dirname(os.path.abspath(__file__)))
+    repo = os.environ.get("VERIF_REPO", "/repo")
+    env = dict(os.environ, PYTHONPATH=repo + os.pathsep + VERIF, PYTHONDONTWRITEBYTECODE="1")
+    p = subprocess.run([os.environ.get("VERIF_NATIVE_PY", "/venv/bin/python"), os.path.join(VERIF, "replay", "density_grid.py")], capture_output=True, text=True, env=env, timeout=900, cwd=os.path.join(VERIF, "out"))
+    if p.returncode != 0 or not p.stdout.strip():
+        raise RuntimeError("native density grid harness failed: " + p.stderr[-500:])
+    for r in json.loads(p.stdout.strip().splitlines()[-1]):
+        name = "sampling_method:%s.normalized:ensures:%s[%s,N=%d]" % (r["grid"].split("(")[0], r["what"], r["grid"], r["N"])
+        (c.ok(name, detail=r["detail"][:150], backend="enumerated-native") if r["ok"] else c.fail(name, r["detail"]))
+
+
 def tasks(tier):
-    out = [Task("C06/proof/GeometricGrid.normalized[N symbolic, local]", lambda: geometric_normalized(True), kind="proof", bound=dict(N="symbolic", growth="symbolic >= 1"), replay=dict(harness="nlp_diff_any", families=[["C06", ["geometric"]]], parts=["grid"])),
+    out = [Task("C06/density-and-function-grids", native_density_grids, kind="enumerated", replay=dict(harness="density_probe"),
+                bound=dict(densities=["1+tau", "1+3tau^2", "exp(2tau)", "2-tau"], dense_edges=[[10, 0.1], [3, 0.3]], N=[1, 2, 5, 8], tolerance=1e-5, construction_orders=2)),
+           Task("C06/proof/GeometricGrid.normalized[N symbolic, local]", lambda: geometric_normalized(True), kind="proof", bound=dict(N="symbolic", growth="symbolic >= 1"), replay=dict(harness="nlp_diff_any", families=[["C06", ["geometric"]]], parts=["grid"])),
            Task("C06/proof/GeometricGrid.normalized[N symbolic, global]", lambda: geometric_normalized(False), kind="proof", bound=dict(N="symbolic", growth="symbolic >= 1"), replay=dict(harness="nlp_diff_any", families=[["C06", ["geometric"]]], parts=["grid"])),
            Task("C06/proof/uniform-and-call[N symbolic]", uniform_grid, kind="proof", bound=dict(N="symbolic", k="symbolic"))]
     for M in ((1, 2, 3) if tier == "thorough" else (1, 2)):
